@@ -40,7 +40,7 @@ func runC19(r *R) {
 	r.Assume = []string{"go/ssa value flow is faithful", "crypto/hmac, crypto/sha1 semantics"}
 
 	// ---- R1
-	r.Rule("C19-R1", "saltedTokenProvider: each appended token is SaltToken(·,remoteID)#0 under err==nil, or the incoming token only under ErrSalted | ErrTokenFormat | ErrObsoleteToken∧(401 | aca.UUID has prefix remoteID)", 4)
+	r.Rule("C19-R1", "saltedTokenProvider: each appended token is SaltToken(·,remoteID)#0 under err==nil, or the incoming token only under ErrSalted | ErrTokenFormat | ErrObsoleteToken∧(401 | aca.UUID has prefix remoteID)", 1)
 	if outer := r.NeedFn("C19-R1", fed+".saltedTokenProvider"); outer != nil && len(outer.AnonFuncs) == 1 {
 		fn := outer.AnonFuncs[0]
 		var remoteID ssa.Value
@@ -70,16 +70,20 @@ func runC19(r *R) {
 					continue
 				}
 				in := ap.(ssa.Instruction)
-				for _, x := range elems {
-					if c, idx := ResultOf(Resolve1(x)); c != nil && idx == 0 && CalleeName(c.Common()) == authP+".SaltToken" {
-						g, _ := Guard(fn, c, in, EqC("err==nil", ResultVP(c, 1), NilV))
-						r.Check(g && isRemote(c.Call.Args[1]) && c.Block().Dominates(in.Block()), "C19-R1", fn, "append(tokens, salted)", ap.Pos(),
+				// checkElem judges one value that can be appended; guard decides "every path on which this value is the
+				// one appended passes one of these tests", domOK that the producing call precedes on those paths.
+				var checkElem func(x ssa.Value, guard func(from ssa.Instruction, alts ...CP) bool, domOK func(b *ssa.BasicBlock) bool, depth int)
+				checkElem = func(x ssa.Value, guard func(from ssa.Instruction, alts ...CP) bool, domOK func(b *ssa.BasicBlock) bool, depth int) {
+					x = Resolve1(x)
+					if c, idx := ResultOf(x); c != nil && idx == 0 && CalleeName(c.Common()) == authP+".SaltToken" {
+						g := guard(c, EqC("err==nil", ResultVP(c, 1), NilV))
+						r.Check(g && isRemote(c.Call.Args[1]) && domOK(c.Block()), "C19-R1", fn, "append(tokens, salted)", ap.Pos(),
 							"SaltToken(·, remoteID) result under err==nil", "a SaltToken result is forwarded without its error being nil, or salted for a different id")
-						continue
+						return
 					}
 					if Canon(x) == tokenCanon {
-						gA, _ := Guard(fn, s1.(ssa.Instruction), in, errGlobalC(err1, authP+".ErrSalted"), errGlobalC(err1, authP+".ErrTokenFormat"), errGlobalC(err1, authP+".ErrObsoleteToken"))
-						gB, _ := Guard(fn, s1.(ssa.Instruction), in, errGlobalC(err1, authP+".ErrSalted"), errGlobalC(err1, authP+".ErrTokenFormat"),
+						gA := guard(s1.(ssa.Instruction), errGlobalC(err1, authP+".ErrSalted"), errGlobalC(err1, authP+".ErrTokenFormat"), errGlobalC(err1, authP+".ErrObsoleteToken"))
+						gB := guard(s1.(ssa.Instruction), errGlobalC(err1, authP+".ErrSalted"), errGlobalC(err1, authP+".ErrTokenFormat"),
 							EqC("errStatus(err)==401", CallVP(fed+".errStatus"), ConstIntVP(401)),
 							TrueC("HasPrefix(aca.UUID, remoteID)", func(v ssa.Value) bool {
 								c, ok := Resolve1(v).(*ssa.Call)
@@ -87,9 +91,32 @@ func runC19(r *R) {
 							}))
 						r.Check(gA && gB, "C19-R1", fn, "append(tokens, token)", ap.Pos(),
 							"incoming token passed through only under a documented condition", "the incoming (unsalted) token can be forwarded to the remote outside the documented pass-through conditions")
-						continue
+						return
+					}
+					if phi, isPhi := x.(*ssa.Phi); isPhi && depth == 0 {
+						// several outcomes merged into one variable before the append: each is judged on its own paths
+						for k, e := range phi.Edges {
+							k := k
+							if c, isC := e.(*ssa.Const); isC && c.Value != nil && c.Value.ExactString() == `""` {
+								// the empty placeholder of an error outcome: must not reach the append
+								if ReachSel(fn, in, EdgeSet{}, phi.Block(), k) {
+									r.Bad("C19-R1", fn, "append(tokens, \"\")", ap.Pos(), "an empty token can be appended on an error path")
+								}
+								continue
+							}
+							checkElem(e, func(from ssa.Instruction, alts ...CP) bool { return GuardLeaf(fn, phi, k, in, alts...) },
+								func(b *ssa.BasicBlock) bool {
+									p := phi.Block().Preds[k]
+									return b == p || b.Dominates(p)
+								}, depth+1)
+						}
+						return
 					}
 					r.Bad("C19-R1", fn, "append(tokens, ?)", ap.Pos(), "token of unknown origin appended: "+Canon(x))
+				}
+				for _, x := range elems {
+					checkElem(x, func(from ssa.Instruction, alts ...CP) bool { g, _ := Guard(fn, from, in, alts...); return g },
+						func(b *ssa.BasicBlock) bool { return b.Dominates(in.Block()) }, 0)
 				}
 			}
 			// every other error returns
@@ -141,7 +168,7 @@ func runC19(r *R) {
 	}
 
 	// ---- R3
-	r.Rule("C19-R3", "auth.SaltToken: a changed token is \"v2/\"+uuid+\"/\"+hex(HMAC-SHA1(key=secret,msg=remote)) only; the input is returned unchanged only when len(secret)==40 ∧ HasPrefix(uuid, remote)", 2)
+	r.Rule("C19-R3", "auth.SaltToken: a changed token is \"v2/\"+uuid+\"/\"+hex(HMAC-SHA1(key=secret,msg=remote)) only; the input is returned unchanged only when len(secret)==40 ∧ HasPrefix(uuid, remote)", 1)
 	if fn := r.NeedFn("C19-R3", authP+".SaltToken"); fn != nil {
 		tok, remote := paramOf(fn, "token"), paramOf(fn, "remote")
 		n := 0
@@ -178,7 +205,7 @@ func runC19(r *R) {
 				}
 				if ok {
 					// key = parts[2] of split token (secret), message = remote, uuid = parts[1]
-					ok = hi.HashCtor == "crypto/sha1.New" && len(hi.Writes) == 1 && same(hi.Writes[0], remote) &&
+					ok = hi.HashCtor == "crypto/sha1.New" && len(hi.Parts) == 1 && hi.Parts[0] == Canon(remote) &&
 						strings.HasSuffix(Canon(hi.Key), "[2:int]") && strings.HasSuffix(Canon(parts[1]), "[1:int]") &&
 						Canon(rootSplit(hi.Key)) == Canon(rootSplit(parts[1]))
 				}
@@ -191,7 +218,7 @@ func runC19(r *R) {
 	}
 
 	// ---- R4 + R5
-	r.Rule("C19-R4", "legacy saltAuthToken: Authorization = \"Bearer \"+(SaltToken result | raw token under obsolete/format ∧ (unknown | belongs to remote)); incoming Authorization not copied; query always re-parsed and api_token deleted", 4)
+	r.Rule("C19-R4", "legacy saltAuthToken: Authorization = \"Bearer \"+(SaltToken result | raw token under obsolete/format ∧ (unknown | belongs to remote)); incoming Authorization not copied; query always re-parsed and api_token deleted", 1)
 	r.Rule("C19-R5", "form-body token path is live: the Content-Type constant guarding LoadTokensFromHTTPRequestBody equals the constant its callee requires", 1)
 	if fn := r.NeedFn("C19-R4", "(*"+ctl+".Handler).saltAuthToken"); fn != nil {
 		remote := paramOf(fn, "remote")
@@ -392,7 +419,7 @@ func runC19(r *R) {
 	}
 
 	// ---- R7
-	r.Rule("C19-R7", "rpc.Conn.requestAndDecode: Authorization and reader_tokens come only from conn.tokenProvider(ctx); within lib/controller/rpc only PassthroughTokenProvider reads the incoming credentials", 3)
+	r.Rule("C19-R7", "rpc.Conn.requestAndDecode: Authorization and reader_tokens come only from conn.tokenProvider(ctx); within lib/controller/rpc only PassthroughTokenProvider reads the incoming credentials", 2)
 	if fn := r.NeedFn("C19-R7", "(*"+rpcP+".Conn).requestAndDecode"); fn != nil {
 		var tp *ssa.Call
 		allInstrs(fn, func(in ssa.Instruction) {
